@@ -142,6 +142,19 @@ func (w *world) alphabet(profile string) []letter {
 		ls = append(ls, letter{Name: "2tx: transfer+burn", Txs: []txT{txs[0], txs[10]}})
 		ls = append(ls, envLetters(txs[0])...)
 	}
+	if w.opts.Vault {
+		// a vault exists at genesis (see chain.GenesisOptions.Vault): withdrawals through the vault's
+		// hook, actions by right and wrong authorities, inner messages that succeed and fail
+		for _, t := range w.vaultTxs() {
+			switch t.Name {
+			case "withdraw(a1<-V,30)", "withdraw(a1<-V,35 second in interval)", "withdraw(a1<-V,61 above policy)", "withdraw(a2<-V,1 no policy)",
+				"V.authorize(a0,#0,policy a1 60/10)", "V.authorize(a1,#0,suspend)", "V.authorize(a0,#1,resume)",
+				"V.authorize(a0,#0,exec transfer from empty vault)", "V.authorize(a0,#1,exec transfer V->a2 1000>balance)", "V.authorize(a0,#1,exec escrow V->e0 30)", "V.authorize(a0,#1,exec burn 50>balance)",
+				"V.authorize(a2 no authority,#0,policy)", "transfer(a0->V,10) deposit", "escrow(a0->V,50) vault as escrow account", "vault.Create(a1,thr2)":
+				ls = append(ls, letter{Name: t.Name, Txs: []txT{t}})
+			}
+		}
+	}
 	if w.opts.Runtime {
 		for _, rs := range []roundSpec{
 			{Who: "all"}, {Who: "all", Msgs: "transfer", InMsgs: "all"}, {Who: "scheduler"}, {Who: "dissent"}, {Who: "failure"}, {Who: "backup"},
